@@ -38,12 +38,26 @@ def make_interp():
         s.saved_raises = s.elem_raises      # consumed by the constructor / list display: parity clause uses it
     I.on_elem_raises = keep_raises
     I.on_dict_raises = lambda d, r, path: None
+
+    # StructuredTypeUnmarshaller.__call__: the required-keys loop (TypedDict targets)
+    def inv(I, path, env, k):
+        kw = env.lookup("kwargs")
+        slf = env.lookup("self")
+        t = to_val(slf.fields["t"])
+        n = kw.n if not isinstance(kw.n, int) else z3.IntVal(kw.n)
+
+        return [Q([IntS], lambda j: z3.Implies(z3.And(j >= 0, j < k), kw.has_f(rw.required_key(t, j))), name="required-present")]
+    I.loop_specs[(f"{UN}.StructuredTypeUnmarshaller.__call__", 0)] = LoopSpec("required-keys", lambda I, p, e, k: None, inv)
     return I
+
+
+required_witness = z3.Function("required_witness", Val, IntS, IntS)
 
 
 def routine_axioms():
     r, v = z3.Consts("r v", Val)
-    return [Q([Val, Val], lambda c, k: z3.Implies(rw.ctx_has(c, k), z3.And(truthy(rw.ctx_val(c, k)),
+    return [Q([Val], lambda t: rw.required_n(t) >= 0, trigger=rw.required_n, name="required-nonneg"),
+            Q([Val, Val], lambda c, k: z3.Implies(rw.ctx_has(c, k), z3.And(truthy(rw.ctx_val(c, k)),
                                                                           Val.is_VObj(rw.ctx_val(c, k)))),
               trigger=rw.ctx_val, name="context-values-are-routine-objects")] + rw.world_axioms()
 
